@@ -162,6 +162,10 @@ class LoopMixin:
             from . import builtins_model as BM
 
             return BM.val_iter_segments(self, it)
+        from .values import SClass
+
+        if isinstance(it, SClass) and self.index.is_enum(it.ci):
+            return [("conc", [self.enum_member(it.ci, m) for m, _ in self.index.enum_members(it.ci)])]
         raise Unsupported(f"iteration over {type(it).__name__}")
 
     # ================================================================== for
@@ -507,6 +511,13 @@ class LoopMixin:
             for lid, rec in st2.lists.items():
                 if lid not in st.lists and rec.kind == "base" and lid not in [m for b in st.lists.values() for k, m in b.meta.items() if k.startswith("child:")]:
                     pass
+            db2, db1 = st2.ghost.get("db"), st.ghost.get("db")
+            if db2 is not None:
+                for tn, t2 in db2.tables.items():
+                    t1 = db1.tables.get(tn) if db1 is not None else None
+                    same = t1 is not None and t1.exists.eq(t2.exists) and all(t1.cols[c].eq(t2.cols[c]) for c in t2.cols)
+                    if not same and not (t1 is None and t2.exists.eq(db2.committed[tn].exists) and all(t2.cols[c].eq(db2.committed[tn].cols[c]) for c in t2.cols)):
+                        raise Unsupported(f"SQL write to {tn} inside a summarised loop (give the callee a contract)")
             for did, rec in st2.dicts.items():
                 if did in st.dicts and rec.meta.get("mut"):
                     if rec.backing is not None and rec.backing[0] in family:
